@@ -53,7 +53,8 @@ CUSTOM = {
 CUSTOM_STEPPERS = {'SA': ['initialize', 'stage1', 'stage2', 'stage3',
                           'stage4', 'stage5'],
                    'SB': ['stage1', 'stage2'], 'SC': ['initialize',
-                                                      'stage1']}
+                                                      'stage1'],
+                   'SD': ['stage1']}
 
 
 def shipped_catalog():
@@ -113,11 +114,18 @@ def programs(seedv, n, tier):
               ('I3TwoSets', 'SA', 'SC'), ('I5', 'SA', 'SB'),
               ('I5', 'SA', 'SA'), ('I2Reversed', 'SA', 'SB'),
               ('I2Reversed', 'SB', 'SC'), ('I1', 'SC', 'SA'),
-              ('I3TwoSets', 'SA', None)]
+              ('I3TwoSets', 'SA', None), ('I1', 'SD', 'SA'),
+              ('I1', 'SA', 'SD')]
     for i, (ic, s0, s1) in enumerate(combos):
         st_ = {'a0': s0}
         if s1:
             st_['a1'] = s1
+        have = set()
+        for sname in st_.values():
+            have |= set(CUSTOM_STEPPERS[sname])
+        if not set(CUSTOM[ic][0]) <= have:
+            # every stage the integrator calls must be defined by a stepper
+            continue
         for per in (False, True):
             cust.append(dict(kind='custom', integrator=ic, steppers=st_,
                              nsets=CUSTOM[ic][1], periodic=per))
@@ -129,9 +137,27 @@ def programs(seedv, n, tier):
         if i < len(progs):
             allp.append(progs[i])
     if tier == 'quick':
-        start = (seedv * n) % len(allp)
-        rot = allp[start:] + allp[:start]
-        return rot[:n]
+        # a fixed core (one program per user-defined feature) plus a window
+        # over everything else that rotates with the seed
+        def key(p):
+            return (p['integrator'], tuple(sorted(p['steppers'].items())),
+                    p['periodic'])
+        want = [('I1', 'SD', 'SA', False), ('I1', 'SA', 'SD', True),
+                ('I3TwoSets', 'SA', 'SB', True), ('I5', 'SA', 'SB', False),
+                ('I2NoDomain', 'SA', 'SB', False),
+                ('I2Reversed', 'SB', 'SC', False)]
+        core = []
+        for ic, s0, s1, per in want:
+            for p in cust:
+                if p['integrator'] == ic and p['steppers'].get('a0') == s0 \
+                        and p['steppers'].get('a1') == s1 and \
+                        p['periodic'] == per:
+                    core.append(p)
+        rest = [p for p in allp if key(p) not in set(key(c) for c in core)]
+        k = max(0, n - len(core))
+        start = (seedv * k) % len(rest)
+        rot = rest[start:] + rest[:start]
+        return core + rot[:k]
     return allp
 
 
